@@ -96,6 +96,27 @@ def server_cert(kind: str) -> tuple[bytes, bytes] | None:
     return pems
 
 
+def named_cert(org: str) -> tuple[bytes, bytes]:
+    """Self-signed EC certificate for `localhost` whose subject also carries O=<org>: two of them can sit in
+    one trust file without the verifier confusing one for the issuer of the other (same-name lookups)."""
+    from cryptography import x509
+    from cryptography.hazmat.primitives import hashes, serialization
+    from cryptography.hazmat.primitives.asymmetric import ec
+    from cryptography.x509.oid import NameOID
+
+    key = ec.generate_private_key(ec.SECP256R1())
+    name = x509.Name([x509.NameAttribute(NameOID.ORGANIZATION_NAME, org), x509.NameAttribute(NameOID.COMMON_NAME, "localhost")])
+    now = datetime.datetime.now(datetime.timezone.utc)
+    cert = (x509.CertificateBuilder().subject_name(name).issuer_name(name).public_key(key.public_key())
+            .serial_number(x509.random_serial_number()).not_valid_before(now - datetime.timedelta(days=1))
+            .not_valid_after(now + datetime.timedelta(days=30))
+            .add_extension(x509.SubjectAlternativeName([x509.DNSName("localhost")]), critical=False)
+            .add_extension(x509.BasicConstraints(ca=True, path_length=None), critical=True)
+            .sign(key, hashes.SHA256()))
+    return (cert.public_bytes(serialization.Encoding.PEM),
+            key.private_bytes(serialization.Encoding.PEM, serialization.PrivateFormat.TraditionalOpenSSL, serialization.NoEncryption()))
+
+
 def control_negotiates(kind: str, lo: int, hi: int) -> str:
     """What a permissive server context (level 0, every version) with this certificate negotiates with a
     permissive client offering lo..hi: shows that the old version IS negotiable with this certificate."""
@@ -183,6 +204,7 @@ class Started:
         from nauyaca.server.server import start_server
 
         loop = asyncio.new_event_loop()
+        loop.set_exception_handler(lambda _l, _c: None)   # e.g. a peer that writes after close_notify: not the harness's business
         asyncio.set_event_loop(loop)
         try:
             kw = {"certfile": cf, "keyfile": kf} if cf else {}
@@ -275,6 +297,7 @@ class Started:
             s.bind(("127.0.0.1", 0))
             srv = await orig(loop_self, protocol_factory, sock=s, ssl=ssl, **kw)
             st.ssl_arg, st.kw, st.loop = ssl, kw, loop_self
+            loop_self.set_exception_handler(lambda _l, _c: None)
             st.port = s.getsockname()[1]
             st.started = True
             st.ready.set()
